@@ -184,6 +184,9 @@ impl WorkerPool {
             return DispatchResult::Dropped;
         }
 
+        #[cfg(huginn_net_verif)]
+        crate::verif_hooks::perturb(0);
+
         let worker_id = match packet_hash::hash_flow(&packet, self.num_workers.get()) {
             Some(id) => id,
             None => {
@@ -302,6 +305,9 @@ impl WorkerPool {
         tcp_flows: &mut TtlCache<FlowKey, TlsClientHelloReader>,
         filter: Option<&FilterConfig>,
     ) -> Result<Option<TlsClientOutput>, HuginnNetTlsError> {
+        #[cfg(huginn_net_verif)]
+        crate::verif_hooks::worker_packet(packet);
+
         if let Some(filter_cfg) = filter {
             if !raw_filter::apply(packet, filter_cfg) {
                 debug!("Filtered out packet before parsing");
